@@ -118,6 +118,10 @@ theorem stepL_refines {s : State} (hI : Inv s) {h : HStep} {s' : State} {o : HOu
     simp only [stepL] at hs
     cases hs
     exact ⟨hI, rfl, routerLookup_abs hI d⟩
+  | sendBus c =>
+    simp only [stepL] at hs
+    cases hs
+    exact ⟨hI, rfl, rfl⟩
   | ask c d =>
     simp only [stepL, getNameOwnerOf_post hI c d] at hs
     cases hs
@@ -205,6 +209,7 @@ def HStep.toOp : HStep → Op
   | .op o => o
   | .send c _ => .other c
   | .ask c _ => .other c
+  | .sendBus c => .other c
 
 /-- The states a history with lookups goes through are states of the plain name history: lookups
 change nothing. -/
@@ -246,23 +251,16 @@ theorem runL_state {hs : List HStep} : ∀ {s s' : State} {outs : List HOut}, In
           simp only [stepL] at h1
           cases h1
           exact ⟨[] :: evss, by simp only [List.map_cons, HStep.toOp, run, step, hrun]⟩
+        | sendBus c =>
+          simp only [stepL] at h1
+          cases h1
+          exact ⟨[] :: evss, by simp only [List.map_cons, HStep.toOp, run, step, hrun]⟩
         | ask c d =>
           simp only [stepL, getNameOwnerOf_post hI c d] at h1
           cases h1
           exact ⟨[] :: evss, by simp only [List.map_cons, HStep.toOp, run, step, hrun]⟩
 
 /-! ### which lookups an operation can change (what a router that keeps its own copy must be told) -/
-
-/-- The well-known names whose owner an operation may change: the requested / released name; for a
-disconnect the names of the connection's own table (the loop of `clientDisconnected`). -/
-def changedNames (s : State) : Op → List Name
-  | .request _ n _ => [n]
-  | .release _ n => [n]
-  | .disconnect c =>
-    match Dict.get? s.clients c with
-    | some t => Dict.keys t
-    | none => []
-  | _ => []
 
 theorem step_queue_frame {s : State} (hI : Inv s) {op : Op} {s' : State} {evs : List Event}
     (h : step s op = .ok (s', evs)) (n : Name) (hn : n ∉ changedNames s op) :
